@@ -10,7 +10,9 @@ CORE = "rink_core"
 SUB = "runtime::substance::Substance::"
 
 DIMLESS_AMOUNT = {"div(mul(A,O),I)", "mul(A,O)"}
-DIMENSIONED_AMOUNT = {"div(I,A)", "div(O,A)", "div(O,div(I,A))", "div(I,div(O,A))"}
+# output*(a/input) as the property states it: the amount is a dividend, never a divisor (an amount of zero is 0, not an error)
+DIMENSIONED_AMOUNT = {"div(A,I)", "div(A,O)", "mul(O,div(A,I))", "mul(I,div(A,O))"}
+AMOUNT_AS_DIVISOR = {"div(I,A)", "div(O,A)", "div(O,div(I,A))", "div(I,div(O,A))"}
 
 
 def role_trees(fn):
@@ -25,8 +27,9 @@ def run(chk, F):
         "behind dimless() of the amount/property ratio and otherwise the Conformance error carrying the amount and the property's "
         "own side; the three near-copies of the property arithmetic (Substance::get, to_reply, get_in_unit) are compared as "
         "role-normalised operation trees over (amount, input, output) against the reference set {output*amount/input} and "
-        "{input/amount, output/amount, output/(input/amount), input/(output/amount)} - a ratio inverted in one copy makes the "
-        "siblings disagree; Mul/Div of a substance by a number change only `amount` and share `properties`; Expr::Of maps the two "
+        "{amount/input, amount/output, output*(amount/input), input*(amount/output)} (the property's own formula: the amount is never "
+        "a divisor) - a ratio inverted in one copy makes the siblings disagree; in the copies for a dimensionless amount every "
+        "reported output carries the amount; Mul/Div of a substance by a number change only `amount` and share `properties`; Expr::Of maps the two "
         "error kinds; substance_from_formula rejects any token that is not a known symbol (optionally followed by a count), adds "
         "count x molar_mass of the same symbol for every symbol occurrence, and returns Some only after at least one symbol; "
         "every symbol registered in substance_symbols names a registered substance. Linearity over all ~200 database substances "
@@ -58,7 +61,9 @@ def siblings(chk, F):
                            "this copy computes %s, the reference (and its siblings) compute %s" % (sorted(ts), sorted(DIMLESS_AMOUNT)))
             else:
                 chk.decide(ts == DIMENSIONED_AMOUNT, "sibling-trees", fk, "dimensioned-amount-copy", g.where(),
-                           "for a dimensioned amount: input/amount, output/amount, then output/(input/amount) or input/(output/amount)",
+                           "for a dimensioned amount: amount/input, amount/output, then output*(amount/input) or input*(amount/output)",
+                           ("this copy divides by the amount (%s): `energy_LHV of (0 gallon gasoline)`, `0 kg egg` and `0 gallon gasoline -> btu` answer "
+                            "\"Division by zero\" instead of 0; the property's formula is output*(a/input)" % sorted(ts)) if ts & AMOUNT_AS_DIVISOR else
                            "this copy computes %s, the reference (and its siblings) compute %s" % (sorted(ts), sorted(DIMENSIONED_AMOUNT)))
     if n != 6:
         chk.anchor_lost("sibling-trees", "rink_core::runtime::substance", "expected 6 copies of the property arithmetic (2 in each of get, to_reply, get_in_unit), found %d" % n)
@@ -66,12 +71,34 @@ def siblings(chk, F):
     for name in ("to_reply", "get_in_unit"):
         fn = F.find(CORE, SUB + name)
         for g in F.closures_of(fn):
-            if role_trees(g) != DIMENSIONED_AMOUNT:
+            if role_trees(g) == DIMLESS_AMOUNT:
+                scaled_ratio(chk, g)
+            if role_trees(g) != DIMENSIONED_AMOUNT and not (role_trees(g) & AMOUNT_AS_DIVISOR):
                 continue
             pairs = name_pairs(F, g)
-            chk.decide(pairs == {"output_name": "div(O,div(I,A))", "input_name": "div(I,div(O,A))"}, "sibling-trees", "rink_core::" + g.path, "name-goes-with-tree", g.where(),
-                       "the value reported under output_name is output/(input/amount); under input_name it is input/(output/amount)",
+            okp = pairs in ({"output_name": "mul(O,div(A,I))", "input_name": "mul(I,div(A,O))"}, {"output_name": "div(O,div(I,A))", "input_name": "div(I,div(O,A))"})
+            chk.decide(okp, "sibling-trees", "rink_core::" + g.path, "name-goes-with-tree", g.where(),
+                       "the value reported under output_name is output*(amount/input); under input_name it is input*(amount/output)",
                        "name/value pairing is %s" % pairs)
+
+
+def scaled_ratio(chk, g):
+    """`multiplying or dividing a substance by a number scales every reported property by the same factor`: in the copy for a
+    dimensionless amount every (input, output) pair that becomes a reply carries the amount in its output - also the ratio
+    properties, which are shown as output per input (`2 water` listed density 1000 kg/m^3 while `density of (2 water)` is 2000)."""
+    n = 0
+    for i, j, st in g.stmts():
+        rv = st.get("rv", {})
+        if rv.get("k") == "agg" and rv.get("agg") == "tuple" and len(rv["ops"]) == 2:
+            tr = numtree.tree(g.apath(rv["ops"][1]))
+            if tr.startswith("?") or not set(tr) & set("IOA"):
+                continue
+            n += 1
+            chk.decide("A" in tr, "scaling", "rink_core::" + g.path, "reported-value-carries-the-amount#%d" % n, g.where(i, j),
+                       "the reported output is %s" % tr,
+                       "the reported output is %s, which does not depend on the amount: `2 water` and `water / 2` list the ratio properties of 1 water" % tr)
+    if n < 2:
+        raise AnchorLost("%s: expected the (input, output) pairs of both kinds of property, found %d" % (g.path, n))
 
 
 def name_pairs(F, g):
@@ -103,7 +130,9 @@ def get_gates(chk, F):
             else:
                 ap = fn.apath(rv["ops"][0])
                 errs.append((i, ap))
-    want = {"div(O,div(I,A))": ("div(I,A)", "output_name"), "div(I,div(O,A))": ("div(O,A)", "input_name")}
+    want = {"mul(O,div(A,I))": ("div(A,I)", "output_name"), "mul(I,div(A,O))": ("div(A,O)", "input_name")}
+    if not any(tr in want for _, tr in oks):
+        want = {"div(O,div(I,A))": ("div(I,A)", "output_name"), "div(I,div(O,A))": ("div(O,A)", "input_name")}   # reported by sibling-trees
     seen = set()
     for bb, tr in oks:
         if tr not in want:
@@ -117,7 +146,7 @@ def get_gates(chk, F):
         nt = [d for d in gs if d[0] == "bool" and d[2] is True and ("." + nm) in ap_str(d[1]) and "PartialEq" in ap_str(d[1])]
         chk.decide(bool(nt), "get-gates", fk, "name-test:" + nm, fn.where(bb), "this value is returned for `name == prop.%s`" % nm, "%s is not tied to the test name == prop.%s" % (tr, nm))
     if seen != set(want):
-        chk.anchor_lost("get-gates", fk, "Substance::get does not return both output/(input/amount) and input/(output/amount): %s" % [t for _, t in oks])
+        chk.anchor_lost("get-gates", fk, "Substance::get does not return both output*(amount/input) and input*(amount/output): %s" % [t for _, t in oks])
     # Conformance errors carry (amount, property's own side)
     conf = []
     for i, j, st in fn.stmts():
@@ -127,7 +156,8 @@ def get_gates(chk, F):
             gs = [fn.guard_desc(g) for g in fn.guards_of(i)]
             ratio = [numtree.tree(d[1][0][2][0]) for d in gs if d[0] == "bool" and d[2] is False and d[1][0][0] == "call" and d[1][0][1].endswith("Number::dimless")]
             conf.append((i, a, b, ratio))
-    okc = sorted((a, b, tuple(x for x in r if x.startswith("div"))) for _, a, b, r in conf) == [("A", "I", ("div(I,A)",)), ("A", "O", ("div(O,A)",))]
+    okc = sorted((a, b, tuple(x for x in r if x.startswith("div"))) for _, a, b, r in conf) in (
+        [("A", "I", ("div(A,I)",)), ("A", "O", ("div(A,O)",))], [("A", "I", ("div(I,A)",)), ("A", "O", ("div(O,A)",))])
     chk.decide(okc, "get-gates", fk, "conformance-error-operands", fn.where(conf[0][0]) if conf else fn.where(),
                "a non-conformable amount yields Conformance(amount, the property's input) resp. (amount, the property's output) on the failing edge of the same test",
                "Conformance errors of Substance::get are %s" % [(a, b, r) for _, a, b, r in conf])
